@@ -24,6 +24,10 @@ try:
     for c in crates:
         vf.build_harness(c)
         print("harness ok:", c)
+    # 32-bit execution of the real crates (C11): Miri sysroot for i686 and a warm build of the reader harness
+    import w32
+    w32.run_reader([])
+    print("miri/i686 ok")
 except vf.Failure as f:
     print("SETUP FAILURE:", f.what); print(f.detail); sys.exit(1)
 PY
